@@ -65,16 +65,16 @@ VP_DECLARE_VEC(vec_sz, size_t)
  * (never assigned; nondeterministic in each harness).  Value-initialised vectors (std::vector<X> v(n))
  * are modelled as malloc'ed (arbitrary) storage that is zero AT the ghost indices: a sound
  * over-approximation (a zero-initialised symbolic-size array costs >11 GB in CBMC 6.11). */
-extern size_t vp_gk, vp_gj;
+extern size_t vp_gk, vp_gj, vp_gm;
 #ifdef VP_NATIVE
 #define VP_COPY_AT_GHOST(d, s, n) { size_t vp_i_; for (vp_i_ = 0; vp_i_ < (n); ++vp_i_) (d)[vp_i_] = (s)[vp_i_]; }
 #else
-#define VP_COPY_AT_GHOST(d, s, n) { if (vp_gk < (n)) (d)[vp_gk] = (s)[vp_gk]; if (vp_gj < (n)) (d)[vp_gj] = (s)[vp_gj]; }
+#define VP_COPY_AT_GHOST(d, s, n) { if (vp_gk < (n)) (d)[vp_gk] = (s)[vp_gk]; if (vp_gj < (n)) (d)[vp_gj] = (s)[vp_gj]; if (vp_gm < (n)) (d)[vp_gm] = (s)[vp_gm]; }
 #endif
 #ifdef VP_NATIVE
 #define VP_ZERO_AT_GHOST(p, n) { size_t vp_i_; for (vp_i_ = 0; vp_i_ < (n); ++vp_i_) (p)[vp_i_] = 0; }
 #else
-#define VP_ZERO_AT_GHOST(p, n) { if (vp_gk < (n)) (p)[vp_gk] = 0; if (vp_gj < (n)) (p)[vp_gj] = 0; }
+#define VP_ZERO_AT_GHOST(p, n) { if (vp_gk < (n)) (p)[vp_gk] = 0; if (vp_gj < (n)) (p)[vp_gj] = 0; if (vp_gm < (n)) (p)[vp_gm] = 0; }
 #endif
 extern int vp_thrown;           /* a C++ exception is in flight */
 
